@@ -12,7 +12,23 @@ from . import env, gen, world as worldmod
 PROP_INDEX = {f"C{i:02d}": i for i in range(1, 21)}
 
 
+PINNED_BASE = 9_000_000  # fixed cases that every batch of a property executes
 SYSTEMATIC_BASE = 5_000_000
+
+# C14: the listed known finding D7 must be met (and printed) by every run of the check:
+# a world whose last node has its (truncated) centroid pixel outside its own mask
+PINNED = {
+    "C14": [
+        {
+            "world": {
+                "ndim": 3, "shape": [2, 6, 6], "seg": True, "dtype": "int32", "scale": None, "time_key": "time", "pos_mode": "single",
+                "thick3d": False, "nodes": {"1": {"t": 0, "pix": [[1, 1], [1, 2]]}, "2": {"t": 1, "pix": [[0, 0], [3, 3]]}},
+                "edges": [[1, 2]], "ids": "computed", "score": {}, "conf": {}, "enable": [], "subscribers": 0, "sibling": False,
+            },
+            "ops": [{"op": "reimport", "fmt": "geff2", "with_pos": True}, {"op": "reimport", "fmt": "geff2", "with_pos": False}, {"op": "reimport", "fmt": "internal"}],
+        }
+    ]
+}
 EDIT_KINDS = ["add_node", "delete_node", "add_edge", "delete_edge", "swap", "update_attrs", "paint"]
 
 
@@ -38,7 +54,11 @@ def make_case(prop: str, seed: int, idx: int, tier: str) -> dict:
     cfg = gen.swarm(rng, prop, tier)
     cons = gen.world_constraints(prop)
     w = worldmod.generate(rng, cons)
-    if idx >= SYSTEMATIC_BASE:
+    if idx >= PINNED_BASE:
+        pin = PINNED[prop][idx - PINNED_BASE]
+        w, ops = pin["world"], pin["ops"]
+        cfg["steps"] = len(ops)
+    elif idx >= SYSTEMATIC_BASE:
         # systematic layer of C02: the idx-th {E,U,R}-word, edits drawn from the seeded
         # stream; an edit that the state refuses is retried with up to 3 other edits so the
         # executed word equals the intended one in most runs (the executed word is what
